@@ -8,6 +8,7 @@
 import Yld.Model.Api
 import Yld.Proofs.Restore2
 import Yld.Proofs.FuelMono
+import Yld.Proofs.Prefix
 namespace Yld.C17
 
 /-- evaluate_bounded never lets a recursion-depth error escape. -/
@@ -66,5 +67,14 @@ theorem complete_search_returns_every_answer (e : Engine) (mode : Mode) (f : Nat
     (sched : Sched) (h : (e.query mode f name args sched).2.ending ≠ some .oof) :
     e.query mode (f + 1) name args sched = e.query mode f name args sched :=
   engine_query_fuel_stable e mode f name args sched h
+
+/-- **What `evaluate_bounded` returns is a prefix of the answer sequence.** The answers recorded
+    with limit `f` are a prefix of the answers recorded with any larger limit `f'` — also when the
+    smaller limit cuts the search off in the middle, anywhere (inside unification, a nested call,
+    findall, a retract): the limit only cuts, it never reorders, drops or invents an answer. -/
+theorem bounded_result_is_a_prefix_of_the_answers (e : Engine) (mode : Mode) (f f' : Nat) (hle : f ≤ f')
+    (name : String) (args : List Term) :
+    (e.query mode f name args .all).2.answers <+: (e.query mode f' name args .all).2.answers :=
+  bounded_answers_prefix_le e mode f f' hle name args
 
 end Yld.C17
